@@ -190,12 +190,17 @@ def gen(rng, tier):
     add(0, ["hasreceiver"], "true")
     add(0, ["terminate", 10.0], "any")
     return {"gateways": specs, "actors": actors, "expect": {str(k): val for k, val in expect.items()},
-            "knobs": knobs, "strategy": L.gen_strategy(rng), "preempt": L.gen_preempt(rng, 3000), "faults": [],
+            "knobs": knobs, "strategy": L.gen_strategy(rng), "preempt": L.gen_preempt(rng, 3000), "preempt_at": L.gen_preempt_at(rng, ["_local_receive", "_local_close", "close", "executetask", "_getremoteerror", "waitclose", "receive", "__del__"]), "faults": [],
             "transport": transport, "backend": backend, "gwi": gwi, "mode": mode, "failpos": j,
             "errtext_limit": 3000}
 
 
 def shrink_cases(case):
+    if case.get("preempt_at"):
+        for i in range(len(case["preempt_at"])):
+            c = dict(case)
+            c["preempt_at"] = case["preempt_at"][:i] + case["preempt_at"][i + 1:]
+            yield c
     if case.get("preempt"):
         for i in range(len(case["preempt"])):
             c = dict(case)
